@@ -99,7 +99,8 @@ def end_to_end(v, vec, tier, rnd):
         if c['mine']['proto'] == 1 and len(c['sa']) == 1:
             table[(json.dumps(aset_ordered(c['mine'])), json.dumps(aset_ordered(c['sa'][0])))] = c['out']
     ok_enc = lambda p: all((t['id'], t['keylen']) in ENC_NAME for t in p['transforms'] if t['type'] == 1) and all(t['id'] in (12, 14) for t in p['transforms'] if t['type'] == 3) \
-        and all(t['id'] in (19, 20) for t in p['transforms'] if t['type'] == 4) and any(t['type'] == 4 for t in p['transforms'])
+        and all(t['id'] in (19, 20) for t in p['transforms'] if t['type'] == 4) and any(t['type'] == 4 for t in p['transforms']) \
+        and all(not t['keylen'] for t in p['transforms'] if t['type'] != 1)       # (a configuration cannot express a key length on INTEG / PRF / DH)
     locals_ = {json.dumps(aset_ordered(c['mine'])): c['mine'] for c in vec['select'] if c['mine']['proto'] == 1}
     peers = {json.dumps(aset_ordered(c['sa'][0])): c['sa'][0] for c in vec['select'] if c['mine']['proto'] == 1 and len(c['sa']) == 1 and ok_enc(c['sa'][0])}
     pairs = [(a, b) for a in peers for b in locals_ if (b, a) in table]
@@ -168,7 +169,7 @@ def child_end_to_end(v, vec, tier, rnd):
             table[(json.dumps(aset_ordered(c['mine'])), json.dumps(aset_ordered(c['sa'][0])))] = c['out']
     expressible = lambda p: all((t['id'], t['keylen']) in ENC_NAME for t in p['transforms'] if t['type'] == 1) and all(t['id'] in INTEG_NAME for t in p['transforms'] if t['type'] == 3) \
         and all(t['id'] in DH_NAME for t in p['transforms'] if t['type'] == 4) and any(t['type'] == 5 for t in p['transforms']) \
-        and (p['proto'] == 2) == (not any(t['type'] == 1 for t in p['transforms']))
+        and (p['proto'] == 2) == (not any(t['type'] == 1 for t in p['transforms'])) and all(not t['keylen'] for t in p['transforms'] if t['type'] != 1)
     accept = {(json.dumps(aset_ordered(c['offer'])), json.dumps(aset(c['answer']))): c['ok'] for c in vec['accept']}
     locals_ = {json.dumps(aset_ordered(c['mine'])): c['mine'] for c in vec['select'] if c['mine']['proto'] in (2, 3)}
     peers = {json.dumps(aset_ordered(c['sa'][0])): c['sa'][0] for c in vec['select'] if c['mine']['proto'] in (2, 3) and len(c['sa']) == 1 and expressible(c['sa'][0])}
